@@ -66,6 +66,7 @@ fn main() {
   };
   install_panic_hook();
   let code = match prop.as_str() {
+    "C01" => vprop::c01::run(&cfg),
     "C02" => vprop::c02::run(&cfg),
     "C03" => vprop::c03::run(&cfg),
     "C05" => vprop::c05::run(&cfg),
